@@ -80,6 +80,21 @@ def gen(tier, seed, count=None, maxn=8, maxlen=10, miri=False):
                 n + 200 + k, ",".join(map(str, w)), rng.choice([0, 1]), rng.randrange(1 << 30), rng.choice([0, 3, 4]), rng.choice([0, 30]), rng.randrange(1 << 30),
                 rng.choice([1 << 14, 1 << 14, (1 << 14) | (1 << 13), 0]), rng.choice([100, 300])))
     if count is None and not miri:
+        # very wide broadcasts (byte / 9-bit boundaries of any counter of outstanding workers: 255, 256, 257, 300, 512 auxiliary
+        # threads) whose calls outlast the hand-off
+        for k in range(4 if tier == "quick" else 16):
+            w = [[3, 255, 1, 256, 1], [256, 1, 300, 2], [257, 256, 1, 1], [300, 2, 512, 1, 1]][k % 4]
+            # (dmode 5: every pooled call waits until all pooled calls of its broadcast have begun)
+            out.append("id=%d hist=%s pe=%d seed=%d reuse=1 dmode=%d damount=%d fpint=0 fpseed=1" % (
+                n + 400 + k, ",".join(map(str, w)), rng.choice([0, 1]), rng.randrange(1 << 30), rng.choice([5, 5, 2]), rng.choice([120, 400])))
+    if count is None and not miri:
+        # a pooled call panics with a payload whose destructor panics; after a pause the same pool is used again, as wide and wider
+        for k in range(4 if tier == "quick" else 24):
+            w = rng.choice([[2, 2, 2, 3], [3, 3, 1, 3], [1, 2, 2, 4]])
+            pb = rng.choice([0, 1])
+            out.append("id=%d hist=%s pe=%d seed=%d reuse=0 dmode=0 damount=5 fpint=0 fpseed=1 wbomb=1 panics=%d:%d gapat=%d gapms=300" % (
+                n + 500 + k, ",".join(map(str, w)), rng.choice([0, 1]), rng.randrange(1 << 30), pb, rng.randrange(1, w[pb] + 1), pb + 1))
+    if count is None and not miri:
         # thread creation fails in the middle of a history, while a broadcast grows a pool that already has workers
         for k in range(4 if tier == "quick" else 40):
             first = rng.choice([1, 2, 3])
